@@ -193,6 +193,14 @@ func longTag(id uint16, name, field string, max uint32) tagSpec {
 func ratTag(id uint16, name, field string) tagSpec {
 	return tagSpec{id, name, func(rng *rand.Rand, size int) (LVal, map[string]interface{}) {
 		n, d := 1+uint32(rng.Intn(100000)), 1+uint32(rng.Intn(10000))
+		// a quarter of the values sit on the boundaries of the unsigned 32-bit numerator / denominator
+		edge := []uint32{1, 65535, 65536, 1<<31 - 1, 1 << 31, 1<<32 - 1}
+		switch rng.Intn(8) {
+		case 0:
+			n = edge[rng.Intn(len(edge))]
+		case 1:
+			n, d = edge[rng.Intn(len(edge))], edge[rng.Intn(len(edge))]
+		}
 		return LVal{Typ: tRational, Rats: [][2]uint32{{n, d}}}, map[string]interface{}{field: float64(n) / float64(d)}
 	}}
 }
@@ -327,6 +335,14 @@ var catalog = map[string]map[string][]tagSpec{
 func coord(rng *rand.Rand, maxDeg int, field string) (LVal, map[string]interface{}) {
 	d, m := uint32(rng.Intn(maxDeg)), uint32(rng.Intn(60))
 	sn, sd := uint32(rng.Intn(600000)), uint32(10000)
+	switch rng.Intn(4) {
+	case 0: // decimal degrees, minutes and seconds zero (as some writers do)
+		dn, dd := uint32(rng.Intn(maxDeg*1000000)), uint32(1000000)
+		return LVal{Typ: tRational, Rats: [][2]uint32{{dn, dd}, {0, 1}, {0, 1}}}, map[string]interface{}{field: float64(dn) / float64(dd)}
+	case 1: // degrees and decimal minutes
+		mn, md := uint32(rng.Intn(600000)), uint32(10000)
+		return LVal{Typ: tRational, Rats: [][2]uint32{{d, 1}, {mn, md}, {0, 1}}}, map[string]interface{}{field: float64(d) + float64(mn)/float64(md)/60}
+	}
 	v := float64(d)/1 + float64(m)/1/60 + float64(sn)/float64(sd)/3600
 	return LVal{Typ: tRational, Rats: [][2]uint32{{d, 1}, {m, 1}, {sn, sd}}}, map[string]interface{}{field: v}
 }
